@@ -28,7 +28,7 @@ ASSUMPTIONS = [
 ]
 
 AXN = "xyz"
-TOL = 1e-12   # observed differences <= 5e-16 (reference and metamorphic) over 600 thorough cases
+TOL0 = 1e-12   # observed differences <= 5e-16 (reference and metamorphic) over 600 thorough cases
 
 
 def _exc(e):
@@ -294,6 +294,18 @@ def check_case(case):
         bad("value:shape", f"output shape {yv.shape}")
         return labels, V
 
+    # Conditioning: each layer maps a perturbation d of its supports to about (p/q) d (smooth maximum (sum x^p)^(1/q)
+    # followed by the minimum), so a one-ulp difference in the first layer is amplified by (p/q)^(layers-1). For the
+    # default parameters p/q = 1.06; for drawn ones (xi_0 near 1, small p) it reaches 10 and more, and two correct
+    # evaluations then differ by far more than 1e-12 (seen: 1.75e-12 for p/q = 9.3 over 6 layers, growing by 9.3 per
+    # layer). The tolerance follows that bound; cases where it would exceed 1e-7 make no value claim.
+    amp = max(1.0, abs(p / q)) ** max(0, n[axis] - 1)
+    TOL = max(TOL0, 64 * 2.220446049250313e-16 * amp)
+    if amp > 1e3:
+        labels.append("ill_conditioned_chain")
+    if TOL > 1e-7:
+        labels.append("value_not_claimed")       # (bounds, layer facts and direction handling are still judged)
+        TOL = float("inf")
     # (a) reference
     err = float(np.max(np.abs(yv - yref)))
     value_ok = err <= TOL
